@@ -117,7 +117,7 @@ func writeEvidence(P, tier string, seed int, eng *Engine, cone []string, results
 		"functions_under_contract": funcs,
 		"per_clause":               groupObls(obls),
 		"solver_time_s":            solverTime,
-		"back_ends":                "z3-new 5.1.0, z3 4.8.12, cvc5 1.0 raced per obligation; first `unsat` discharges (thorough: two solvers must agree where two finish)",
+		"back_ends":                "stage 1: z3-new 5.1.0 alone for 3 s; stage 2: portfolio of z3-new with six random seeds (name~k), z3 4.8.12 and cvc5 1.0 raced per obligation; first `unsat` discharges, any `sat` is a counterexample (thorough: a second solver family is given a grace period to confirm)",
 		"contract_files":           eng.contractFiles,
 		"integers":                 "exact fixed-width bit-vectors with Go wrap-around; float64 exact IEEE-754",
 	}
